@@ -60,6 +60,7 @@ class Frame:
     old: dict
     wr: dict = field(default_factory=dict)       # name -> bool ndarray (written-set) for uninit arrays
     at_loop: list = field(default_factory=list)
+    at_iter: list = field(default_factory=list)
     stmt: object = None
     stmt_counts: dict = field(default_factory=dict)
     if_count: int = 0
@@ -189,6 +190,8 @@ class Interp:
                 return self.sev(e.args[0], fr, ctx["old"], ctx)
             if n == "at_loop":
                 return self.sev(e.args[0], fr, ctx["at_loop"], ctx)
+            if n == "at_iter":
+                return self.sev(e.args[0], fr, ctx["at_iter"], ctx)
             if n == "len":
                 return len(self.sev(e.args[0], fr, env, ctx))
             if n == "shape":
@@ -519,6 +522,8 @@ class Interp:
         c = {"old": fr.old}
         if fr.at_loop:
             c["at_loop"] = fr.at_loop[-1]
+        if fr.at_iter:
+            c["at_iter"] = fr.at_iter[-1]
         return c
 
     def ghost(self, text, fr):
@@ -660,10 +665,16 @@ class Interp:
                     evar = tgt.id
                     cvar = lp.index or f"_k{ordn.replace('.', '_')}"
                 lo, hi = 0, len(seq)
+            if lp.range_is is not None and seq is None:
+                rl = pyval(self.sev(ast.parse(lp.range_is[0], mode="eval").body, fr, fr.env, self.ctx(fr)))
+                rh = pyval(self.sev(ast.parse(lp.range_is[1], mode="eval").body, fr, fr.env, self.ctx(fr)))
+                if (lo, hi) != (rl, rh):
+                    self.fail(fr, "assert", f"loop{ordn}:range-is", f"range({lo}, {hi}) instead of ({rl}, {rh})")
             for gs in lp.ghost_pre:
                 self.ghost(gs, fr)
             need_snap = self.check_inv and any("at_loop" in cl.expr for cl in lp.inv)
             fr.at_loop.append(self.snapshot(fr) if need_snap else fr.env)
+            iter_snap = bool(lp.iter) or any("at_iter" in cl.expr for v in fr.c.asserts.values() for cl in v)
             k = lo
             fr.env[cvar] = k
             self.check_invs(fr, lp, ordn, "inv-init")
@@ -676,10 +687,16 @@ class Interp:
                         if w is not None and not w[k]:
                             self.fail(fr, "init", f"for-elem@{self.lab(fr)}", f"read of unwritten cell {k}")
                         fr.env[evar] = pyval(seq[k])
+                    fr.at_iter.append(self.snapshot(fr) if iter_snap else fr.env)
                     try:
-                        self.block(s.body, fr)
-                    except _Continue:
-                        pass
+                        try:
+                            self.block(s.body, fr)
+                        except _Continue:
+                            pass
+                        for cl in lp.iter:
+                            self.check_clause(fr, cl, fr.env, self.ctx(fr), "iter", f"loop{ordn}:{cl.label}")
+                    finally:
+                        fr.at_iter.pop()
                     for gs in lp.ghost_end:
                         self.ghost(gs, fr)
                     k += 1
@@ -708,12 +725,25 @@ class Interp:
                 while True:
                     v0 = pyval(self.sev(var, fr, fr.env, self.ctx(fr))) if var is not None else None
                     fr.stmt = s
+                    snap = self.snapshot(fr) if (lp.iter or lp.exit) else fr.env
                     if not self.ev(s.test, fr):
+                        fr.at_iter.append(snap)
+                        try:
+                            for cl in lp.exit:
+                                self.check_clause(fr, cl, fr.env, self.ctx(fr), "exit", f"loop{ordn}:{cl.label}")
+                        finally:
+                            fr.at_iter.pop()
                         break
+                    fr.at_iter.append(snap)
                     try:
-                        self.block(s.body, fr)
-                    except _Continue:
-                        pass
+                        try:
+                            self.block(s.body, fr)
+                        except _Continue:
+                            pass
+                        for cl in lp.iter:
+                            self.check_clause(fr, cl, fr.env, self.ctx(fr), "iter", f"loop{ordn}:{cl.label}")
+                    finally:
+                        fr.at_iter.pop()
                     for gs in lp.ghost_end:
                         self.ghost(gs, fr)
                     fr.stmt = s
